@@ -154,7 +154,7 @@ PROPS = {
         "lean": "Originium.Props.C11",
         "suites": ["key", "codec"],
         "skeleton_funcs": ["table:Data.Encode", "table:Index.Encode", "table:Footer.Encode", "table:Meta.Encode", "table:Build", "wal:WAL.Write", "wal:WAL.Read"],
-        "trusted_base": COMMON_TB + ["extract/gotrans.go (DESIGN section 14) regenerates GenCodec.encodeData (Data.Encode: the loop over the entries with the size guard and the seven writes per entry) from /repo on every run; CodecTie.encodeData_eq (= the model's encodeData followed by the compression) is part of this property's module; the error writer on a bytes.Buffer appends and cannot fail, utils.LCP is the model's lcp (compared by the codec suite), utils.Compress + bytes.Clone is the function comp; GenCodec.decodeData (Data.Decode: the record loop through the sticky error reader) with CodecTie.loop_step / decodeData_eq (= the model's decData on every input) and code_roundtrip; Go's prevKey[:lcp] panics when lcp exceeds the previous key, the translation takes what is there (no encoder output does that); GenCodec.encodeIndex / decodeIndex (Index.Encode / Index.Decode) with CodecTie.encodeIndex_eq / decodeIndex_eq / index_code_roundtrip; GenCodec.encodeFooter / decodeFooter (Footer.Encode / Footer.Decode) with CodecTie.encodeFooter_eq / decodeFooter_eq; a short read through the error reader is an error, consumes what was left and leaves the target unchanged (io.ReadFull)",
+        "trusted_base": COMMON_TB + ["extract/gotrans.go (DESIGN section 14) regenerates GenCodec.encodeData (Data.Encode: the loop over the entries with the size guard and the seven writes per entry) from /repo on every run; CodecTie.encodeData_eq (= the model's encodeData followed by the compression) is part of this property's module; the error writer on a bytes.Buffer appends and cannot fail, utils.LCP is the model's lcp (compared by the codec suite), utils.Compress + bytes.Clone is the function comp; GenCodec.decodeData (Data.Decode: the record loop through the sticky error reader) with CodecTie.loop_step / decodeData_eq (= the model's decData on every input) and code_roundtrip; Go's prevKey[:lcp] panics when lcp exceeds the previous key, the translation takes what is there (no encoder output does that); GenCodec.encodeIndex / decodeIndex (Index.Encode / Index.Decode) with CodecTie.encodeIndex_eq / decodeIndex_eq / index_code_roundtrip; GenCodec.encodeFooter / decodeFooter (Footer.Encode / Footer.Decode) with CodecTie.encodeFooter_eq / decodeFooter_eq; GenCodec.encodeMeta / decodeMeta (Meta.Encode / Meta.Decode; CreatedUnix is a non-negative time, written as a Nat) with CodecTie.encodeMeta_eq / decodeMeta_eq; a short read through the error reader is an error, consumes what was left and leaves the target unchanged (io.ReadFull)",
                                      "S2 (klauspost/compress/s2) as an abstract pair with S2Law: decompressing a concatenation of compressed chunks gives the concatenation of the chunks",
                                      "frugal/thrift: the binary layout of types.Entry is written out in the model and compared byte for byte; the library decoder on valid input is assumed to invert it",
                                      "sync.Pool / bytes.Buffer: the ownership model of Pool.lean; the static fact 'encoders return bytes.Clone' is re-extracted every run"],
